@@ -6,7 +6,7 @@
      dupSubExpr  dupSubExpr_checker.go "suspicious identical LHS and RHS" (same value)
      caseOrder   caseOrder_checker.go "case T must go before the I case" (T cannot be reached)
    No proofs here. *)
-From GC Require Import Base Model_Expr Model_BoolSimp.
+From GC Require Import Base Model_Expr Model_BoolSimp Model_Rewrites.
 Open Scope string_scope.
 
 (* ---------- the claims ---------- *)
@@ -252,3 +252,42 @@ Fixpoint strip_spaces (s : string) : string :=
 (* boolean form of impl_trans_on over an explicit universe of type ids *)
 Definition impl_trans_okb (impl : N -> N -> bool) (universe : list N) (ifaces : list N) : bool :=
   forallb (fun t => forallb (fun j => forallb (fun i => negb (impl t j && impl j i) || impl t i) ifaces) ifaces) universe.
+
+(* ---------- the claim-producing rule groups as the binary executes them (rulesdata.PrecompiledRules) ---------- *)
+Definition claim_rules : list rule := [
+{| r_group := "sloppyLen"; r_patterns := ["len($_) >= 0"]; r_where := ""; r_suggest := ""; r_report := "$$ is always true" |};
+{| r_group := "sloppyLen"; r_patterns := ["len($_) < 0"]; r_where := ""; r_suggest := ""; r_report := "$$ is always false" |};
+{| r_group := "sloppyLen"; r_patterns := ["len($x) <= 0"]; r_where := ""; r_suggest := ""; r_report := "$$ can be len($x) == 0" |};
+{| r_group := "dupArg"; r_patterns := ["$x.Equal($x)"; "$x.Equals($x)"; "$x.Compare($x)"; "$x.Cmp($x)"]; r_where := "m[""x""].Pure"; r_suggest := ""; r_report := "suspicious method call with the same argument and receiver" |};
+{| r_group := "dupArg"; r_patterns := ["copy($x, $x)"; "cmp.Compare($x, $x)"; "maps.Equal($x, $x)"; "math.Dim($x, $x)"; "math.Max($x, $x)"; "math.Min($x, $x)"; "reflect.Copy($x, $x)"; "reflect.DeepEqual($x, $x)"; "slices.Compare($x, $x)"; "slices.Equal($x, $x)"; "strings.Contains($x, $x)"; "strings.Compare($x, $x)"; "strings.EqualFold($x, $x)"; "strings.HasPrefix($x, $x)"; "strings.HasSuffix($x, $x)"; "strings.Index($x, $x)"; "strings.LastIndex($x, $x)"; "strings.Split($x, $x)"; "strings.SplitAfter($x, $x)"; "strings.SplitAfterN($x, $x, $_)"; "strings.SplitN($x, $x, $_)"; "strings.Replace($_, $x, $x, $_)"; "strings.ReplaceAll($_, $x, $x)"; "bytes.Contains($x, $x)"; "bytes.Compare($x, $x)"; "bytes.Equal($x, $x)"; "bytes.EqualFold($x, $x)"; "bytes.HasPrefix($x, $x)"; "bytes.HasSuffix($x, $x)"; "bytes.Index($x, $x)"; "bytes.LastIndex($x, $x)"; "bytes.Split($x, $x)"; "bytes.SplitAfter($x, $x)"; "bytes.SplitAfterN($x, $x, $_)"; "bytes.SplitN($x, $x, $_)"; "bytes.Replace($_, $x, $x, $_)"; "bytes.ReplaceAll($_, $x, $x)"; "types.Identical($x, $x)"; "types.IdenticalIgnoreTags($x, $x)"; "draw.Draw($x, $_, $x, $_, $_)"]; r_where := "m[""x""].Pure"; r_suggest := ""; r_report := "suspicious duplicated args in $$" |};
+{| r_group := "offBy1"; r_patterns := ["$x[len($x)]"]; r_where := "m[""x""].Pure && m[""x""].Type.Is(`[]$_`)"; r_suggest := "$x[len($x)-1]"; r_report := "index expr always panics; maybe you wanted $x[len($x)-1]?" |};
+{| r_group := "offBy1"; r_patterns := ["$i := strings.Index($s, $_); $_ := $slicing[$i:]"; "$i := strings.Index($s, $_); $_ = $slicing[$i:]"; "$i := bytes.Index($s, $_); $_ := $slicing[$i:]"; "$i := bytes.Index($s, $_); $_ = $slicing[$i:]"]; r_where := "m[""s""].Text == m[""slicing""].Text @At(m[""slicing""])"; r_suggest := ""; r_report := "Index() can return -1; maybe you wanted to do $s[$i+1:]" |};
+{| r_group := "offBy1"; r_patterns := ["$i := strings.Index($s, $_); $_ := $slicing[:$i]"; "$i := strings.Index($s, $_); $_ = $slicing[:$i]"; "$i := bytes.Index($s, $_); $_ := $slicing[:$i]"; "$i := bytes.Index($s, $_); $_ = $slicing[:$i]"]; r_where := "m[""s""].Text == m[""slicing""].Text @At(m[""slicing""])"; r_suggest := ""; r_report := "Index() can return -1; maybe you wanted to do $s[:$i+1]" |};
+{| r_group := "offBy1"; r_patterns := ["$s[strings.Index($s, $_):]"; "$s[:strings.Index($s, $_)]"; "$s[bytes.Index($s, $_):]"; "$s[:bytes.Index($s, $_)]"]; r_where := ""; r_suggest := ""; r_report := "Index() can return -1; maybe you wanted to do Index()+1" |}
+].
+
+(* ---------- what the rules match: a callee SPELLED len (gogrep patterns are syntactic) ----------
+   [sloppy_len_claim] / [off_by1] above are the matchers on programs whose `len` is the builtin (the
+   converter resolves the callee through go/types).  The rules themselves also fire when `len` is a user
+   function: *)
+Definition spelled_len (e : expr) : option expr :=
+  match e with
+  | ECall (FPrim PLen) [x] => Some x
+  | ECall (FOpaque "len" _) [x] => Some x
+  | _ => None
+  end.
+Definition sloppy_len_claim_by_name (e : expr) : option bool :=
+  match e with
+  | EBinary OGe c z => match spelled_len c with Some _ => if is_zero_lit z then Some true else None | None => None end
+  | EBinary OLt c z => match spelled_len c with Some _ => if is_zero_lit z then Some false else None | None => None end
+  | _ => None
+  end.
+Definition off_by1_by_name (e : expr) : bool :=
+  match e with
+  | EIndex x c =>
+      match spelled_len c with
+      | Some x' => expr_eqb x x' && rg_pure x && match typeof x with Some TInts | Some TBytes => true | _ => false end
+      | None => false
+      end
+  | _ => false
+  end.
